@@ -39,6 +39,21 @@ func c09R8(h H) {
 		b, ok := sl.Elem().Underlying().(*types.Basic)
 		return ok && b.Kind() == types.String
 	}
+	// what is stored into each struct field anywhere in the module (field-based: a list kept in a struct — the
+	// parser's copy of the valid directives — is the same list)
+	fieldStores := map[string][]ssa.Value{}
+	fkey := func(fa *ssa.FieldAddr) string {
+		return types.TypeString(derefType(fa.X.Type()), nil) + "#" + sprintf("%d", fa.Field)
+	}
+	for _, fn := range funcs {
+		allInstrs(fn, func(in ssa.Instruction) {
+			if st, ok := in.(*ssa.Store); ok {
+				if fa, ok := st.Addr.(*ssa.FieldAddr); ok && isListT(st.Val.Type()) {
+					fieldStores[fkey(fa)] = append(fieldStores[fkey(fa)], st.Val)
+				}
+			}
+		})
+	}
 	srcFuncs := map[*ssa.Function]bool{}   // functions returning an alias
 	srcParams := map[*ssa.Parameter]bool{} // parameters an alias is passed as
 	var alias func(v ssa.Value, seen map[ssa.Value]bool) bool
@@ -66,6 +81,13 @@ func c09R8(h H) {
 			}
 			if fv, ok := t.X.(*ssa.FreeVar); ok {
 				for _, s := range storesToFreeVar(fv) {
+					if alias(s, seen) {
+						return true
+					}
+				}
+			}
+			if fa, ok := t.X.(*ssa.FieldAddr); ok && isListT(t.Type()) {
+				for _, s := range fieldStores[fkey(fa)] {
 					if alias(s, seen) {
 						return true
 					}
